@@ -80,6 +80,23 @@ def oracle(ctx, intensive: bool = False, hints=()) -> C.Part:
         P.cases += 1
         P.hit("forced-count")
         P.violations.extend(S.pred_C04_force(cfg, sched))
+    # the same over call histories: consecutive forced plans differing in ONE parameter (overlap, Kdes, fs, N, bmin, Lmin, target)
+    for i in range(ctx.scale(2, 8)):
+        if ctx.time_left() < 25:
+            break
+        base = {"N": int(ctx.rng.integers(1500, 5000)), "fs": float(ctx.rng.choice([1.0, 10.0])), "olap": 0.5, "bmin": 1.0, "Lmin": 1,
+                "Jdes": int(ctx.rng.integers(120, 300)), "Kdes": 10}
+        hist = [dict(base)]
+        for key, val in (("olap", 0.75), ("olap", 0.0), ("Kdes", 50), ("fs", base["fs"] * 3.0), ("N", base["N"] + 137),
+                         ("bmin", 2.0), ("Lmin", 16), ("Jdes", base["Jdes"] + 17), ("olap", 0.9)):
+            nxt = dict(hist[-1])
+            nxt[key] = val
+            hist.append(nxt)
+        sched = ["ltf", "vectorized_ltf", "lpsd", "new_ltf"][i % 4]
+        P.cases += 1
+        P.hit("forced-count-history", len(hist))
+        P.nontrivial.add(("force-history", sched, base["N"], base["Jdes"]))
+        P.violations.extend(S.pred_C04_force_history(hist, sched))
     return P
 
 
@@ -87,7 +104,10 @@ def replay(ctx, data) -> C.Part:
     P = C.Part()
     for v in data.get("violations", []):
         r = v["replay"]
-        if r["subclaim"] == "forced-count":
+        if r["subclaim"] == "forced-count-history":
+            P.violations.extend(S.pred_C04_force_history(r["history"], r["scheduler"]))
+            P.cases += 1
+        elif r["subclaim"] == "forced-count":
             P.violations.extend(S.pred_C04_force(r["cfg"], r["scheduler"]))
             P.cases += 1
         else:
